@@ -51,12 +51,9 @@ struct Res {
     /// for_each: bit p set = position p was visited; `twice` = some position was visited twice by this call
     vis: u8,
     twice: bool,
-    /// pulls: bit v set = the element with identity (probe position) v was received; `vdup` = twice within this pull
-    vmask: u8,
-    vdup: bool,
 }
 
-const R0: Res = Res { used: false, kind: 0, n: 0, some: false, begin: 0, count: 0, first: 0, last: 0, lenq: 0, no: false, bad_idx: false, bad_seq: false, bad_len: false, bad_more: false, vis: 0, twice: false, vmask: 0, vdup: false };
+const R0: Res = Res { used: false, kind: 0, n: 0, some: false, begin: 0, count: 0, first: 0, last: 0, lenq: 0, no: false, bad_idx: false, bad_seq: false, bad_len: false, bad_more: false, vis: 0, twice: false };
 
 fn do_op<P: Iterator<Item = usize>>(it: &ConIterOfIter<usize, P>, mask: u8, nmax: usize, len: usize) -> Res {
     let op: u8 = kani::any();
@@ -87,9 +84,6 @@ fn op_with<P: Iterator<Item = usize>>(it: &ConIterOfIter<usize, P>, mask: u8, op
                 r.begin = x.idx;
                 r.count = 1;
                 r.bad_idx = x.value != x.idx;
-                if x.value < 8 {
-                    r.vmask = 1 << x.value;
-                }
             }
         }
     } else if on(P_NEXT) {
@@ -100,9 +94,6 @@ fn op_with<P: Iterator<Item = usize>>(it: &ConIterOfIter<usize, P>, mask: u8, op
                 r.some = true;
                 r.begin = v;
                 r.count = 1;
-                if v < 8 {
-                    r.vmask = 1 << v;
-                }
             }
         }
     } else if on(P_CHUNK) {
@@ -121,14 +112,6 @@ fn op_with<P: Iterator<Item = usize>>(it: &ConIterOfIter<usize, P>, mask: u8, op
                         let v = vals.next();
                         if v != Some(r.begin.wrapping_add(k)) {
                             r.bad_seq = true;
-                        }
-                        if let Some(x) = v {
-                            if x < 8 {
-                                if r.vmask & (1 << x) != 0 {
-                                    r.vdup = true;
-                                }
-                                r.vmask |= 1 << x;
-                            }
                         }
                     }
                     k += 1;
@@ -156,14 +139,6 @@ fn op_with<P: Iterator<Item = usize>>(it: &ConIterOfIter<usize, P>, mask: u8, op
                         let v = vals.next();
                         if v != Some(r.begin.wrapping_add(k)) {
                             r.bad_seq = true;
-                        }
-                        if let Some(x) = v {
-                            if x < 8 {
-                                if r.vmask & (1 << x) != 0 {
-                                    r.vdup = true;
-                                }
-                                r.vmask |= 1 << x;
-                            }
                         }
                     }
                     k += 1;
@@ -249,23 +224,12 @@ fn thread_run<P: Iterator<Item = usize>>(
     tbmc::end_thread(t);
 }
 
-/// Quick tier: the wrapped `next` is one atomic event, 7 guessed events per thread (fits the time budget).
 fn run2(mask: [u8; 2], nops: [usize; 2], lmax: usize, nmax: usize, hb: bool) {
-    run_nm([mask[0], mask[1], 0, 0], [nops[0], nops[1], 0, 0], 2, lmax, nmax, hb, 7, false);
-}
-
-/// Thorough tier: the wrapped `next` is two events (read, write-back), 8 guessed events per thread.
-fn run2p(mask: [u8; 2], nops: [usize; 2], lmax: usize, nmax: usize, hb: bool) {
-    run_nm([mask[0], mask[1], 0, 0], [nops[0], nops[1], 0, 0], 2, lmax, nmax, hb, tbmc::M, true);
+    run_n([mask[0], mask[1], 0, 0], [nops[0], nops[1], 0, 0], 2, lmax, nmax, hb);
 }
 
 /// `nt` threads (2..=4); thread t performs `nops[t]` operations drawn from `mask[t]`.
 fn run_n(mask: [u8; 4], nops: [usize; 4], nt: usize, lmax: usize, nmax: usize, hb: bool) {
-    run_nm(mask, nops, nt, lmax, nmax, hb, tbmc::M, true)
-}
-
-/// `tm`: guessed events per thread
-fn run_nm(mask: [u8; 4], nops: [usize; 4], nt: usize, lmax: usize, nmax: usize, hb: bool, tm: usize, twophase: bool) {
     crate::hook::link();
     let len: usize = kani::any();
     kani::assume(len <= lmax);
@@ -280,7 +244,7 @@ fn run_nm(mask: [u8; 4], nops: [usize; 4], nt: usize, lmax: usize, nmax: usize, 
     let c0 = TProbeC0 { len, hint }.into_con_iter();
     let c1 = TProbeC1 { len, hint }.into_con_iter();
     let c2 = TProbeC2 { len, hint }.into_con_iter();
-    tbmc::guess_and_validate(len, hb, nt, tm, twophase);
+    tbmc::guess_and_validate(len, hb, nt);
     let mut res = [[R0; OPS]; 4];
     let last = nt - 1;
     // pass 1: the in-crate checks of the non-last threads are not believed (ignorefn=TProbeA): they run
@@ -312,30 +276,15 @@ fn run_nm(mask: [u8; 4], nops: [usize; 4], nt: usize, lmax: usize, nmax: usize, 
     // ---- everything below is about a real execution --------------------------------------------
     let skip_used = (mask[0] | mask[1] | mask[2] | mask[3]) & B_SKIP != 0;
     let mut deliv = [0u8; 8];
-    let mut by_identity = [0u8; 8];
     let mut any_none = false;
-    let mut any_bad_idx = false;
-    let mut any_bad_seq = false;
     let mut t = 0;
     while t < nt {
         let mut o = 0;
         while o < OPS {
             let r = res[t][o];
             if r.used && is_pull(r.kind) {
-                assert!(!r.vdup, "C01: one pull received the same source element twice");
-                let mut v = 0;
-                while v < 8 {
-                    if r.vmask & (1 << v) != 0 {
-                        by_identity[v] += 1;
-                    }
-                    v += 1;
-                }
-                if r.bad_idx {
-                    any_bad_idx = true;
-                }
-                if r.bad_seq {
-                    any_bad_seq = true;
-                }
+                assert!(!r.bad_idx, "C02: element delivered with index i is not the source element at position i");
+                assert!(!r.bad_seq, "C02 C03: chunk element k is not the source element at begin_idx + k");
                 assert!(!r.bad_len, "C03: a chunk must be non-empty and at most n long");
                 assert!(!r.bad_more, "C03: a chunk yields more elements than it announced");
                 if r.some {
@@ -375,13 +324,6 @@ fn run_nm(mask: [u8; 4], nops: [usize; 4], nt: usize, lmax: usize, nmax: usize, 
         }
         t += 1;
     }
-    let mut v = 0;
-    while v < 8 {
-        assert!(by_identity[v] <= 1, "C01: a source element was delivered to two callers");
-        v += 1;
-    }
-    assert!(!any_bad_idx, "C02: element delivered with index i is not the source element at position i");
-    assert!(!any_bad_seq, "C02 C03: chunk element k is not the source element at begin_idx + k");
     let mut p = 0;
     while p < lmax {
         if p < len {
@@ -461,7 +403,7 @@ fn run_nm(mask: [u8; 4], nops: [usize; 4], nt: usize, lmax: usize, nmax: usize, 
 const U: usize = 12;
 
 // @verif family=TBMC hook=1 ignorefn=TProbeA quick=C01,C02,C04,C05,C09 timeout=2400 mem=40
-// @bounds kind=ConIterOfIter<usize,TProbe*> len<=2, all size hints; 2 threads x 1 next_id_and_value(); <=7 events per thread in the guessed trace (wrapped next = one atomic event) + solo continuation of the last thread; all interleavings
+// @bounds kind=ConIterOfIter<usize,TProbe*> len<=2, all size hints; 2 threads x 1 next_id_and_value(); <=7 events per thread in the guessed trace + solo continuation of the last thread; all interleavings
 #[kani::proof]
 #[kani::unwind(12)]
 fn t2_single_single() {
@@ -469,7 +411,7 @@ fn t2_single_single() {
 }
 
 // @verif family=TBMC hook=1 ignorefn=TProbeA quick=C07 timeout=2400 mem=40
-// @bounds kind=ConIterOfIter<usize,TProbe*> len<=2; 2 threads x 1 next_id_and_value(); <=7 events per thread (atomic next) + solo continuation; happens-before from the recorded memory orderings (vector clocks), ticket exclusivity
+// @bounds kind=ConIterOfIter<usize,TProbe*> len<=2; 2 threads x 1 next_id_and_value(); <=7 events per thread + solo continuation; happens-before from the recorded memory orderings (vector clocks), ticket exclusivity
 #[kani::proof]
 #[kani::unwind(12)]
 fn t2_hb_single_single() {
@@ -477,7 +419,7 @@ fn t2_hb_single_single() {
 }
 
 // @verif family=TBMC hook=1 ignorefn=TProbeA quick=C05,C04 thorough=C01 timeout=2400 mem=40 optcov=both
-// @bounds kind=ConIterOfIter<usize,TProbe*> len<=1; thread 0: 1 x next_id_and_value(), thread 1 (last; continues on its own after the trace): 2 x next_id_and_value() (pulls after the end was reported); <=7 guessed events per thread (the wrapped next is one atomic event); all interleavings
+// @bounds kind=ConIterOfIter<usize,TProbe*> len<=1; thread 0: 1 x next_id_and_value(), thread 1 (last; continues on its own after the trace): 2 x next_id_and_value() (pulls after the end was reported); <=7 guessed events per thread; all interleavings
 #[kani::proof]
 #[kani::unwind(12)]
 fn t2_single_single2() {
@@ -485,7 +427,7 @@ fn t2_single_single2() {
 }
 
 // @verif family=TBMC hook=1 ignorefn=TProbeA quick=C06 thorough=C09 timeout=2400 mem=40 optcov=both|wait
-// @bounds kind=ConIterOfIter<usize,TProbe*> len<=2; thread 0: skip_to_end then has_more/try_get_len, thread 1: 2 x next_id_and_value(); <=7 events per thread (atomic next) + solo continuation; all interleavings
+// @bounds kind=ConIterOfIter<usize,TProbe*> len<=2; thread 0: skip_to_end then has_more/try_get_len, thread 1: 2 x next_id_and_value(); <=7 events per thread + solo continuation; all interleavings
 #[kani::proof]
 #[kani::unwind(12)]
 fn t2_skip_single() {
@@ -493,7 +435,7 @@ fn t2_skip_single() {
 }
 
 // @verif family=TBMC hook=1 ignorefn=TProbeA quick=C11 thorough=C05 timeout=2400 mem=40 optcov=both|wait
-// @bounds kind=ConIterOfIter<usize,TProbe*> len<=2, all size hints; thread 0: 2 x has_more/try_get_len, thread 1: 2 x next_id_and_value(); <=7 events per thread (atomic next) + solo continuation; all interleavings
+// @bounds kind=ConIterOfIter<usize,TProbe*> len<=2, all size hints; thread 0: 2 x has_more/try_get_len, thread 1: 2 x next_id_and_value(); <=7 events per thread + solo continuation; all interleavings
 #[kani::proof]
 #[kani::unwind(12)]
 fn t2_len_single() {
@@ -501,15 +443,15 @@ fn t2_len_single() {
 }
 
 // @verif family=TBMC hook=1 ignorefn=TProbeA quick=C03 thorough=C02,C04 timeout=2400 mem=40
-// @bounds kind=ConIterOfIter<usize,TProbe*> len<=2; thread 0: buffered_iter(2).next(), thread 1: next_id_and_value(); <=7 events per thread (atomic next) + solo continuation; all interleavings
+// @bounds kind=ConIterOfIter<usize,TProbe*> len<=2; thread 0: buffered_iter(2).next(), thread 1: next_id_and_value(); <=7 events per thread + solo continuation; all interleavings
 #[kani::proof]
 #[kani::unwind(12)]
 fn t2_buf_single() {
     run2([B_BUF, B_SINGLE], [1, 1], 2, 2, false);
 }
 
-// @verif family=TBMC hook=1 ignorefn=TProbeA quick=C09 thorough=C03,C02 timeout=2400 mem=40
-// @bounds kind=ConIterOfIter<usize,TProbe*> len<=2; thread 0: next_id_and_value(), thread 1: buffered_iter(2).next() (the chunk pull is the last thread: hang detection applies to it); <=7 events per thread (atomic next) + solo; all interleavings
+// @verif family=TBMC hook=1 ignorefn=TProbeA thorough=C09,C03,C02 timeout=2400 mem=40
+// @bounds kind=ConIterOfIter<usize,TProbe*> len<=2; thread 0: next_id_and_value(), thread 1: buffered_iter(2).next() (the chunk pull is the last thread: hang detection applies to it); <=7 events per thread + solo; all interleavings
 #[kani::proof]
 #[kani::unwind(12)]
 fn t2_single_buf() {
@@ -517,81 +459,63 @@ fn t2_single_buf() {
 }
 
 // @verif family=TBMC hook=1 ignorefn=TProbeA thorough=C03,C01 timeout=2400 mem=40
-// @bounds kind=ConIterOfIter<usize,TProbe*> len<=2; thread 0: next_chunk(n<=2) (allocates), thread 1: next_id_and_value(); <=8 events per thread + solo; all interleavings
+// @bounds kind=ConIterOfIter<usize,TProbe*> len<=2; thread 0: next_chunk(n<=2) (allocates), thread 1: next_id_and_value(); <=7 events per thread + solo; all interleavings
 #[kani::proof]
 #[kani::unwind(12)]
 fn t2_chunk_single() {
-    run2p([B_CHUNK, B_SINGLE], [1, 1], 2, 2, false);
+    run2([B_CHUNK, B_SINGLE], [1, 1], 2, 2, false);
 }
 
 // @verif family=TBMC hook=1 ignorefn=TProbeA thorough=C07 timeout=2400 mem=40
-// @bounds kind=ConIterOfIter<usize,TProbe*> len<=2; thread 0: buffered_iter(2).next(), thread 1: next_id_and_value(); happens-before and exclusivity (a chunk pull uses the iterator several times inside one critical section); <=8 events per thread + solo
+// @bounds kind=ConIterOfIter<usize,TProbe*> len<=2; thread 0: buffered_iter(2).next(), thread 1: next_id_and_value(); happens-before and exclusivity (a chunk pull uses the iterator several times inside one critical section); <=7 events per thread + solo
 #[kani::proof]
 #[kani::unwind(12)]
 fn t2_hb_buf_single() {
-    run2p([B_BUF, B_SINGLE], [1, 1], 2, 2, true);
+    run2([B_BUF, B_SINGLE], [1, 1], 2, 2, true);
 }
 
 // @verif family=TBMC hook=1 ignorefn=TProbeA thorough=C07 timeout=2400 mem=40
-// @bounds kind=ConIterOfIter<usize,TProbe*> len<=2; thread 0: next_id_and_value(), thread 1: buffered_iter(2).next(); happens-before and exclusivity; <=8 events per thread + solo
+// @bounds kind=ConIterOfIter<usize,TProbe*> len<=2; thread 0: next_id_and_value(), thread 1: buffered_iter(2).next(); happens-before and exclusivity; <=7 events per thread + solo
 #[kani::proof]
 #[kani::unwind(12)]
 fn t2_hb_single_buf() {
-    run2p([B_SINGLE, B_BUF], [1, 1], 2, 2, true);
+    run2([B_SINGLE, B_BUF], [1, 1], 2, 2, true);
 }
 
-// NOT REGISTERED (no `@verif` line): with the wrapped `next` modelled as one atomic event this four-thread harness
-// found the window between the two stores of `skip_to_end` on the unrepaired tree in 47 min (fix 925e7a7); with the
-// two-event model of `next` CBMC exceeds 42 GB on it. Kept for reference; run by hand with a larger machine.
-// bounds: len<=2; FOUR threads: next_id_and_value() | skip_to_end() | next_id_and_value() | next_id_and_value();
-// <=6 guessed events per thread + solo continuation of the last; happens-before, exclusivity, exactly-once, index fidelity
+// NOT REGISTERED (no `@verif` line; it found the skip_to_end window on the unrepaired tree in 47 min, fix 925e7a7,
+// but has never completed on the repaired tree within the time available): family=TBMC hook=1 ignorefn=TProbeA thorough=C07 timeout=7200 mem=48 optcov=both weight=6
+// @bounds kind=ConIterOfIter<usize,TProbe*> len<=2; FOUR threads: next_id_and_value() | skip_to_end() | next_id_and_value() | next_id_and_value(); <=7 events per thread + solo continuation of the last; happens-before, exclusivity, exactly-once, index fidelity (the window between the two stores of skip_to_end)
 #[kani::proof]
 #[kani::unwind(12)]
 fn t4_single_skip_single_single() {
-    run_nm([B_SINGLE, B_SKIP, B_SINGLE, B_SINGLE], [1, 1, 1, 1], 4, 2, 2, true, 6, true);
+    run_n([B_SINGLE, B_SKIP, B_SINGLE, B_SINGLE], [1, 1, 1, 1], 4, 2, 2, true);
 }
 
 // @verif family=TBMC hook=1 ignorefn=TProbeA thorough=C01,C09 timeout=5400 mem=48 weight=6
-// @bounds kind=ConIterOfIter<usize,TProbe*> len<=2; THREE threads x 1 next_id_and_value(); <=6 guessed events per thread + solo continuation of the last; all interleavings
+// @bounds kind=ConIterOfIter<usize,TProbe*> len<=2; THREE threads x 1 next_id_and_value(); <=7 events per thread + solo continuation of the last; all interleavings
 #[kani::proof]
 #[kani::unwind(12)]
 fn t3_single_single_single() {
-    run_nm([B_SINGLE, B_SINGLE, B_SINGLE, 0], [1, 1, 1, 0], 3, 2, 2, false, 6, true);
+    run_n([B_SINGLE, B_SINGLE, B_SINGLE, 0], [1, 1, 1, 0], 3, 2, 2, false);
 }
 
 // @verif family=TBMC hook=1 ignorefn=TProbeA thorough=C06 timeout=5400 mem=48 optcov=both|wait
-// @bounds kind=ConIterOfIter<usize,TProbe*> len<=2; thread 0: next_id_and_value(), thread 1 (last): skip_to_end then has_more; <=8 guessed events per thread + solo; all interleavings
+// @bounds kind=ConIterOfIter<usize,TProbe*> len<=2; thread 0: next_id_and_value(), thread 1 (last): skip_to_end then has_more; <=7 guessed events per thread + solo; all interleavings
 #[kani::proof]
 #[kani::unwind(12)]
 fn t2_single_skip() {
-    run2p([B_SINGLE, B_SKIP | B_LEN], [1, 2], 2, 2, false);
+    run2([B_SINGLE, B_SKIP | B_LEN], [1, 2], 2, 2, false);
 }
 
 // @verif family=TBMC hook=1 ignorefn=TProbeA thorough=C06 timeout=7200 mem=40 optcov=both|wait
-// @bounds kind=ConIterOfIter<usize,TProbe*> len<=1; thread 0: next_chunk(n<=2) (a short or empty chunk, in flight while the other thread skips); thread 1 (last): skip_to_end then has_more; <=8 guessed events per thread + solo; all interleavings
+// @bounds kind=ConIterOfIter<usize,TProbe*> len<=1; thread 0: next_chunk(n<=2) (a short or empty chunk, in flight while the other thread skips); thread 1 (last): skip_to_end then has_more; <=7 guessed events per thread + solo; all interleavings
 #[kani::proof]
 #[kani::unwind(12)]
 fn t2_chunk_skip() {
-    run2p([B_CHUNK, B_SKIP | B_LEN], [1, 2], 1, 2, false);
+    run2([B_CHUNK, B_SKIP | B_LEN], [1, 2], 1, 2, false);
 }
 
 // NOTE: TBMC harnesses with enumerate_for_each on the wrapper (one thread looping until the end while another
 // pulls) were tried with chunk sizes 1 and 2: CBMC needed > 24 GB after 25 min (and > 16 GB for chunk size 2 even
 // sequentially). They are not registered; the for_each loop on the wrapper under interleavings is therefore
 // covered only through its constituent pulls (t2_* harnesses) and sequentially (iter_loops).
-
-// @verif family=TBMC hook=1 ignorefn=TProbeA thorough=C01,C02,C07 timeout=3600 mem=40
-// @bounds kind=ConIterOfIter<usize,TProbe*> len<=2; 2 threads x 1 next_id_and_value(); the wrapped next is TWO events (position read, position write-back: overlapping calls deliver the same element); <=8 guessed events per thread + solo continuation; all interleavings
-#[kani::proof]
-#[kani::unwind(12)]
-fn t2p_single_single() {
-    run2p([B_SINGLE, B_SINGLE], [1, 1], 2, 2, false);
-}
-
-// @verif family=TBMC hook=1 ignorefn=TProbeA thorough=C07 timeout=3600 mem=40
-// @bounds kind=ConIterOfIter<usize,TProbe*> len<=2; 2 threads x 1 next_id_and_value(); two-event model of the wrapped next; happens-before and exclusivity; <=8 guessed events per thread + solo
-#[kani::proof]
-#[kani::unwind(12)]
-fn t2p_hb_single_single() {
-    run2p([B_SINGLE, B_SINGLE], [1, 1], 2, 2, true);
-}
